@@ -194,6 +194,20 @@ where
     }
 }
 
+/// Verification hook (feature `verif-hooks`): public constructor.
+#[cfg(feature = "verif-hooks")]
+impl<W> PDataWriter<W>
+where
+    W: Write,
+{
+    /// Construct a new P-Data value writer over an arbitrary stream.
+    ///
+    /// Forwards to the crate-private constructor unchanged.
+    pub fn verif_new(stream: W, presentation_context_id: u8, max_pdu_length: u32) -> Self {
+        Self::new(stream, presentation_context_id, max_pdu_length)
+    }
+}
+
 /// With the P-Data writer dropped,
 /// this `Drop` implementation
 /// will construct and emit the last P-Data fragment PDU
@@ -636,6 +650,20 @@ pub mod non_blocking {
             cx: &mut Context<'_>,
         ) -> Poll<std::result::Result<(), std::io::Error>> {
             Pin::new(&mut self.stream).poll_shutdown(cx)
+        }
+    }
+
+    /// Verification hook (feature `verif-hooks`): public constructor.
+    #[cfg(feature = "verif-hooks")]
+    impl<W> AsyncPDataWriter<W>
+    where
+        W: AsyncWrite + Unpin,
+    {
+        /// Construct a new P-Data value writer over an arbitrary stream.
+        ///
+        /// Forwards to the crate-private constructor unchanged.
+        pub fn verif_new(stream: W, presentation_context_id: u8, max_pdu_length: u32) -> Self {
+            Self::new(stream, presentation_context_id, max_pdu_length)
         }
     }
 
